@@ -121,6 +121,7 @@ type retInfo struct {
 }
 
 type FnCtx struct {
+	modCache map[*ssa.Function]*modSet
 	eng        *Engine
 	sc         *Script
 	ty         *Types
@@ -1074,7 +1075,8 @@ func (c *FnCtx) havocSet(st *State, m *modSet, why string) {
 			if c.eng.immutableComp(k) {
 				continue
 			}
-			if strings.HasPrefix(k, "ghost$lock") || strings.HasPrefix(k, "ghost$cb") || k == "ghost$cancelled" {
+			if strings.HasPrefix(k, "ghost$lock") || strings.HasPrefix(k, "ghost$cb") || k == "ghost$cancelled" ||
+				strings.HasPrefix(k, "ghost$calls$") || strings.HasPrefix(k, "ghost$arg$") || strings.HasPrefix(k, "ghost$calllock$") || strings.HasPrefix(k, "ghost$callgen$") {
 				// bookkeeping of the verified goroutine itself (locks it holds, its callback log): code we cannot see
 				// does not lock/unlock on our behalf (assumed); callbacks update the log through their own hooks
 				if !m.comps[k] {
@@ -1291,6 +1293,8 @@ func (c *FnCtx) callMods(fr *Frame, call *ssa.CallCommon, m *modSet, depth int) 
 	if callee != nil {
 		if c.isTracked(callee) {
 			m.comps["ghost$calls$"+callee.Name()] = true
+			m.comps["ghost$calllock$"+callee.Name()] = true
+			m.comps["ghost$callgen$"+callee.Name()] = true
 			for k := range call.Args {
 				m.comps[fmt.Sprintf("ghost$arg$%s$%d", callee.Name(), k)] = true
 			}
@@ -1389,8 +1393,16 @@ func (c *FnCtx) cbGhostMods(m *modSet) {
 	}
 }
 
+// modCacheFor: mod-sets depend on which callees the verified contract tracks, so the cache is per verified function
+func (c *FnCtx) modCacheFor() map[*ssa.Function]*modSet {
+	if c.modCache == nil {
+		c.modCache = map[*ssa.Function]*modSet{}
+	}
+	return c.modCache
+}
+
 func (c *FnCtx) funcMods(fn *ssa.Function, m *modSet, depth int) {
-	if mm, ok := c.eng.modCache[fn]; ok {
+	if mm, ok := c.modCacheFor()[fn]; ok {
 		if mm == nil {
 			m.all = true // recursion in progress
 			return
@@ -1404,7 +1416,7 @@ func (c *FnCtx) funcMods(fn *ssa.Function, m *modSet, depth int) {
 		// `modifies` speaks about program state; the ghost bookkeeping the body advances (callback log, channel
 		// sequences, tracked calls, lock generations) changes whatever the clause says
 		if len(fn.Blocks) > 0 && depth <= 6 {
-			c.eng.modCache[fn] = nil
+			c.modCacheFor()[fn] = nil
 			body := newModSet()
 			for _, b := range fn.Blocks {
 				for _, ins := range b.Instrs {
@@ -1421,12 +1433,12 @@ func (c *FnCtx) funcMods(fn *ssa.Function, m *modSet, depth int) {
 				c.cbGhostMods(mm) // some call of a function value: the callback log advances
 			}
 		}
-		c.eng.modCache[fn] = mm
+		c.modCacheFor()[fn] = mm
 		m.union(mm)
 		return
 	}
 	if pm := c.eng.preludeMods(c, fn); pm != nil {
-		c.eng.modCache[fn] = pm
+		c.modCacheFor()[fn] = pm
 		m.union(pm)
 		return
 	}
@@ -1434,7 +1446,7 @@ func (c *FnCtx) funcMods(fn *ssa.Function, m *modSet, depth int) {
 		m.all = true
 		return
 	}
-	c.eng.modCache[fn] = nil
+	c.modCacheFor()[fn] = nil
 	mm := newModSet()
 	for _, b := range fn.Blocks {
 		for _, ins := range b.Instrs {
@@ -1444,7 +1456,7 @@ func (c *FnCtx) funcMods(fn *ssa.Function, m *modSet, depth int) {
 	for _, an := range fn.AnonFuncs {
 		_ = an
 	}
-	c.eng.modCache[fn] = mm
+	c.modCacheFor()[fn] = mm
 	m.union(mm)
 }
 
